@@ -118,6 +118,14 @@ def run_process(sc, testbin, j, timeout, gomaxprocs):
             died = {"cell": last_start["cell"], "idx": last_start["started"], "shard": j.get("shard", 0), "nshard": j.get("nshard", 1), "events": [], "times": [],
                     "closed": True, "returned": ["panic:" + hit + " (in a goroutine the library started: the process died)"], "steps": 0, "sim_ns": 0,
                     "choices": [], "dts": [], "sels": [], "process_died": True, "probes": {}}
+        elif last_start["cell"].get("failure", {}).get("may_panic") and "panic: " in text:
+            # an input the library may panic on for a reason of its own (C17's subject), and on this tree the panic
+            # is raised in a goroutine the library started, so it cannot be recovered and takes the process down:
+            # the cell is recorded as a panicking call (nothing is demanded of the close), the shard resumes after it
+            first = next((l for l in text.splitlines() if l.startswith("panic: ")), "panic: ?")
+            died = {"cell": last_start["cell"], "idx": last_start["started"], "shard": j.get("shard", 0), "nshard": j.get("nshard", 1), "events": [], "times": [],
+                    "closed": True, "returned": ["panic:" + first[7:200] + " (in a goroutine the library started: the process died)"], "steps": 0, "sim_ns": 0,
+                    "choices": [], "dts": [], "sels": [], "process_died": True, "probes": {"process_died_on_may_panic_input": 1}}
         else:
             raise HarnessError("bubble process ended unexpectedly (rc=%d) in cell %s: %s %s" % (p.returncode, json.dumps(last_start["cell"])[:300], p.stdout[-1500:], p.stderr[-1500:]))
     elif not finished and "replay" not in j and "replay_until" not in j:
@@ -175,6 +183,8 @@ def judge(r, ff, ops, ffsteps):
     entry = cell["entry"]
     fid = cell["failure"]["id"]
     ret = r.get("returned") or []
+    if r.get("process_died") and not any(m in x for x in ret for m in CHANNEL_PANICS):
+        return []  # the process died of a panic of the library's own on a may_panic input: nothing was observed, nothing is judged
     # ---- B1 bracketing
     openst = None
     seen = set()
